@@ -2,8 +2,8 @@
 # Confirms a seeded change in a scratch worktree: suite green with the change, demo fails with it and passes without.
 #   tools/confirm_seed.sh <dir containing patch.diff and demo.rs> ; prints a JSON line
 D=$(readlink -f "$1")
-WT=/root/scratch/confirm-wt
-export CARGO_TARGET_DIR=/root/scratch/confirm-target
+WT=${CONFIRM_WT:-/root/scratch/confirm-wt}
+export CARGO_TARGET_DIR=${CONFIRM_WT:-/root/scratch/confirm-wt}-target
 git -C /repo worktree prune
 [ -d $WT ] || git -C /repo worktree add -q --detach $WT HEAD
 git -C $WT checkout -q --detach $(git -C /repo rev-parse HEAD); git -C $WT checkout -q -- .; rm -f $WT/tests/demo.rs
